@@ -14,6 +14,7 @@ func RequiredArguments() Rule {
 		}
 		walker.RegisterEnterDocumentVisitor(&visitor)
 		walker.RegisterEnterFieldVisitor(&visitor)
+		walker.RegisterEnterDirectiveVisitor(&visitor)
 	}
 }
 
@@ -48,6 +49,35 @@ func (r *requiredArgumentsVisitor) EnterField(ref int) {
 
 		if r.operation.ArgumentValue(argument).Kind == ast.ValueKindNull {
 			r.StopWithExternalErr(operationreport.ErrArgumentOnFieldMustNotBeNull(name, fieldName))
+			return
+		}
+	}
+}
+
+// EnterDirective applies the same rule to directives: a directive has to be given every argument its
+// definition declares as required. Unknown directives are reported by another rule.
+func (r *requiredArgumentsVisitor) EnterDirective(ref int) {
+	directiveName := r.operation.DirectiveNameBytes(ref)
+	definition, exists := r.definition.DirectiveDefinitionByNameBytes(directiveName)
+	if !exists || !r.definition.DirectiveDefinitions[definition].HasArgumentsDefinitions {
+		return
+	}
+
+	for _, i := range r.definition.DirectiveDefinitions[definition].ArgumentsDefinition.Refs {
+		if r.definition.InputValueDefinitionArgumentIsOptional(i) {
+			continue
+		}
+
+		name := r.definition.InputValueDefinitionNameBytes(i)
+
+		value, exists := r.operation.DirectiveArgumentValueByName(ref, name)
+		if !exists {
+			r.StopWithExternalErr(operationreport.ErrArgumentRequiredOnDirective(name, directiveName))
+			return
+		}
+
+		if value.Kind == ast.ValueKindNull {
+			r.StopWithExternalErr(operationreport.ErrArgumentOnDirectiveMustNotBeNull(name, directiveName))
 			return
 		}
 	}
